@@ -641,6 +641,40 @@ func (w *World) GetLimited(o *Obj, instance string, max int, asProto bool) {
 	w.classifyReadErr("Get", o, instance, err, failsBefore)
 }
 
+// GetBadOffset reads with an out-of-domain offset: off < 0 is used as is,
+// off > 0 is added to the object's size. Whatever the consumer gets back
+// (an error, or an empty result) is not judged here (C09 owns that); bytes
+// handed out must be a suffix... none are expected beyond the end. The
+// buffer must be released (leak oracles).
+func (w *World) GetBadOffset(o *Obj, instance string, off int64, how string) {
+	b := w.St.BA.Get(w.Ctx, o.Digest(instance))
+	size := o.Size
+	at := off
+	if off > 0 {
+		at = size + off
+	}
+	var err error
+	var n int
+	if how == "readat" {
+		buf := make([]byte, 4)
+		n, err = b.ReadAt(buf, at)
+	} else {
+		r := b.ToChunkReader(at, 64)
+		var chunk []byte
+		for err == nil {
+			chunk, err = r.Read()
+			n += len(chunk)
+		}
+		r.Close()
+	}
+	w.logf("get(%s at offset %d) obj=%d inst=%q -> %d bytes, %v", how, at, o.ID, instance, n, err)
+	if n > 0 && !o.AC && (at < 0 || at >= size) {
+		// (AC entries: the digest is that of the Action, not of the stored
+		// message, so the stored size is not known here.)
+		w.fatalf("a read of object %d (size %d) at offset %d handed out %d bytes", o.ID, size, at, n)
+	}
+}
+
 // OpenHold obtains a buffer and keeps it unconsumed.
 func (w *World) OpenHold(o *Obj, instance string, asReader bool, chunk int) *Hold {
 	fails := w.St.Alloc.NewBlockFailures
